@@ -77,7 +77,7 @@ impl Prop for AnyText {
         "any_text"
     }
     fn rule(&self) -> &'static str {
-        "one case = a corpus program (406 programs from /repo's tests, examples, modules and book) or a generated program, with 0..8 mutations (prefix/suffix cuts, char insert/delete/replace incl. quotes, backslashes, control and multi-byte characters, token delete/duplicate/swap/replace from the token dictionary, line swaps, splices of two files, bracket/operator garbage); compile_bytecode must return Ok or a non-empty diagnostic list, never panic in the front end or kill the process; non-trivial = mutated (>= 1 mutation) and different from its base file; distinct by text"
+        "one case = a corpus program (406 programs from /repo's tests, examples, modules and book) or a generated program, with 0..8 mutations (prefix/suffix cuts, char insert/delete/replace incl. quotes, backslashes, control and multi-byte characters, token delete/duplicate/swap/replace from the token dictionary, line swaps, splices of two files, bracket/operator garbage), or a text from two small grammars: functions whose bodies mention themselves inside tuples / arrays / lambdas / calls (self-referential types), and triple-quoted strings with mixed space / tab indentation, blank and short lines and every closer position; compile_bytecode must return Ok or a non-empty diagnostic list, never panic in the front end or kill the process; non-trivial = mutated (>= 1 mutation) and different from its base file; distinct by text"
     }
     fn n_cases(&self, tier: Tier) -> u32 {
         tier.pick(12000, 400000)
@@ -88,7 +88,9 @@ impl Prop for AnyText {
             let src = print_prog(&generate(&tape, &fl));
             TextCase { origin: "generated".into(), text: apply(&src, &muts), n_muts: muts.len() }
         });
-        prop_oneof![5 => text_strategy(tier.pick(1500, 6000), 8), 1 => generated].boxed()
+        let selfref = (proptest::collection::vec(any::<u16>(), 4..40), proptest::collection::vec(mut_strategy(), 0..2)).prop_map(|(tape, muts)| TextCase { origin: "selfref".into(), text: apply(&selfref_text(&tape), &muts), n_muts: 1 + muts.len() });
+        let mlstring = (proptest::collection::vec(any::<u16>(), 4..30), proptest::collection::vec(mut_strategy(), 0..2)).prop_map(|(tape, muts)| TextCase { origin: "mlstring".into(), text: apply(&mlstring_text(&tape), &muts), n_muts: 1 + muts.len() });
+        prop_oneof![10 => text_strategy(tier.pick(1500, 6000), 8), 2 => generated, 3 => selfref, 3 => mlstring].boxed()
     }
     fn fixed_cases(&self, _tier: Tier, _f: &Findings) -> Vec<Self::Case> {
         // every corpus file unmodified, and hand-picked hostile inputs
